@@ -1,6 +1,7 @@
 From Coq Require Import ZArith List Bool Reals Lra.
 From Flocq Require Import Core BinarySingleNaN.
-Require Import GV.FloatBase GV.FloatLemmas GV.AngleM GV.AngleProofs GV.GeonumM GV.GeonumProofs GV.NewProofs GV.CtorProofs GV.ClosureProofs.
+Require Import GV.FloatBase GV.FloatLemmas GV.AngleM GV.AngleProofs GV.GeonumM GV.GeonumProofs GV.NewProofs GV.CtorProofs GV.ClosureProofs GV.CollM GV.TraitsM GV.Interp GV.ProgClosure.
+Import ListNotations.
 Open Scope R_scope.
 Require Import GV.Properties.C01.
 Check C01_angle_closed : forall a b, Canon a -> Canon b ->
@@ -50,3 +51,13 @@ Check C01_geonum_closed_add : forall (L : libm) g h, CanonG g -> CanonG h -> (bl
    fin (total_angle (sum_adjusted L g h) PI) /\ Rabs (R_ (total_angle (sum_adjusted L g h) PI)) <= bpow radix2 42) ->
   CanonG (gadd_vv L g h).
 Print Assumptions C01_geonum_closed_add.
+Check C01_program_closed : forall (L : libm) (p : prog) rs, Forall okv rs ->
+  forallb (fun i => closed_op (fst i)) p = true ->
+  Forall okv (fold_left (fun rs i => rs ++ [step L rs i]) p rs).
+Print Assumptions C01_program_closed.
+Check C01_program_closed_run : forall (L : libm) (p : prog),
+  forallb (fun i => closed_op (fst i)) p = true -> Forall okv (run L p).
+Print Assumptions C01_program_closed_run.
+Check C01_okv_def : forall v, okv v = match v with VA a => Canon a | VG g => CanonG g | VC l => Forall CanonG l
+                                        | VOG (Some g) => CanonG g | _ => True end.
+Print Assumptions C01_okv_def.
